@@ -61,8 +61,9 @@ ASSUMPTIONS = ["rounding / fastmath re-association are covered by the stated for
                "record INCLUDING the trend), not by theorem",
                "the theorems need p+1 orthonormal columns, i.e. L >= p+1; L = p+1 (complete basis, everything annihilated) is "
                "`detr_complete_basis_zero`; for L <= p the real basis is an L x L orthonormal matrix (the kernels read its column count, so the "
-               "same theorem applies with p := L-1 when L >= 2; L = 1 is the oracle's), and for the NumPy fallbacks the claim rests on the oracle "
-               "and on the correspondence",
+               "same theorem applies with p := L-1 when L >= 2); since the fourth session the library's own basis is translated and these short-segment "
+               "cases are theorems for every backend (Props/BuildQGen `*_libQ_short`, `*_libQ_L1`; Props/PipelineClosed `pipeline_closed_short`, "
+               "`np_poly_*_libQ_L1`)",
                "'a trend of degree p+1 does change it' is asserted on the bins where the reference estimator (direct windowed DFT in extended precision) "
                "changes by more than 1e4 x the rounding tolerance; that such bins exist for a generic record is measured, not proved"]
 RULE = ("cases = (mode plan|single|neg1|edge, auto|cross, detrend order, scheduler, window, backend, trend scale 1|1e3|1e6 x noise, "
